@@ -76,7 +76,7 @@ func ctrlISource(dir string, c C20Case, many bool) string {
 }
 
 var allFaults = []string{"no-tty", "listen-syntax", "listen-unresolvable", "listen-port-range", "listen-in-use",
-	"cache-truncated", "cache-corrupt", "cache-is-dir", "cache-parent-is-file", "cache-dir-unwritable", "log-missing-dir", "log-is-dir", "ctrli-missing"}
+	"cache-truncated", "cache-corrupt", "cache-cert-no-pem", "cache-is-dir", "cache-parent-is-file", "cache-dir-unwritable", "log-missing-dir", "log-is-dir", "ctrli-missing"}
 
 var crashRE = regexp.MustCompile(`panic:|goroutine \d+ \[|SIGSEGV|runtime error|fatal error:`)
 
@@ -161,6 +161,11 @@ func runC20(t testing.TB, c C20Case) (key, what string, classes []string) {
 		case "cache-truncated":
 			b := goodCache()
 			os.WriteFile(cache, b[:len(b)/2], 0o600)
+		case "cache-cert-no-pem":
+			// both sections present, the certificate section holds no
+			// complete PEM block (its END line is lost)
+			b := bytes.Replace(goodCache(), []byte("-----END CERTIFICATE-----\n"), nil, 1)
+			os.WriteFile(cache, b, 0o600)
 		case "cache-corrupt":
 			b := goodCache()
 			i := strings.Index(string(b), "PRIVATE KEY-----\n") + 40
@@ -493,7 +498,7 @@ func c20Cases(thorough bool) []C20Case {
 	}
 	// a terminal is there, but standard input is not it
 	cs = append(cs, C20Case{TTY: true, StdinNull: true}, C20Case{TTY: true, StdinNull: true, GOGC: "1", Termios: toggles[n%len(toggles)]})
-	for _, f := range []string{"listen-syntax", "listen-in-use", "cache-corrupt", "cache-dir-unwritable", "log-is-dir"} {
+	for _, f := range []string{"listen-syntax", "listen-in-use", "cache-corrupt", "cache-cert-no-pem", "cache-dir-unwritable", "log-is-dir"} {
 		cs = append(cs, C20Case{TTY: true, StdinNull: true, Faults: []string{f}, Termios: toggles[n%len(toggles)]})
 		n++
 	}
